@@ -171,7 +171,7 @@ func msgHash(m proto.Message) string {
 	if err != nil {
 		return "unmarshalable"
 	}
-	return shortHash(b)
+	return bagHash(b)
 }
 
 // hook builds the scripted error hook.
